@@ -111,7 +111,7 @@ func batchOpsOf(p *core.Program, fn *ssa.Function) []batchOp {
 
 func c06(r *core.Run) {
 	p := r.P
-	r.Explain = "C06 decided structurally on the embedded store: (IDX) every function that batch-writes a signature record also writes, into the same batch and on every path to the commit, the index entries of all index builders with arguments taken from that same signature (packed value from its ID/EntropyScore/EntropyTolerance), and deletes the stale entries computed from the previously stored record (fetched by the same key), each delete guarded only by 'old field differs'; deleting a record deletes every index entry of the decoded record; (DEDUP) a batch add processes element i only if a full pre-pass recorded i as the last index of its ID; (BOUND) every IterOptions sets both bounds, the upper bound being a nil-checked increment of a key with the same prefix; (REBUILD) the rebuild range-deletes exactly the index prefixes and re-derives through the same builders; (KEYS) composite keys are unambiguous. Not decided: equality with a brute-force oracle over all histories."
+	r.Explain = "C06 decided structurally on the embedded store: (IDX) every function that batch-writes a signature record also writes, into the same batch and on every path to the commit, the index entries of all index builders with arguments taken from that same signature (packed value from its ID/EntropyScore/EntropyTolerance), and deletes the stale entries computed from the previously stored record (fetched by the same key), each delete guarded only by 'old field differs'; deleting a record deletes every index entry of the decoded record; (DEDUP) a batch add processes element i only if a full pre-pass recorded i as the last index of its ID; (BOUND) every IterOptions sets both bounds, the upper bound being a nil-checked increment of a key with the same prefix; (REBUILD) the rebuild range-deletes exactly the index prefixes and re-derives through the same builders; (KEYS) composite keys are unambiguous. Not decided: equality with a brute-force oracle over all histories. (REBUILD, sharpened) each re-derived entry is built from the same fields as on the add path and under no condition on the record's fields that the add path lacks; operations performed by helpers that are handed the batch count as the caller's."
 	r.Undecided = []string{"equality of every lookup with a brute-force pass over the surviving records for all histories (runtime quantifier)", "monotonicity of the %08.4f entropy key formatting"}
 
 	recBuilders := map[*ssa.Function]bool{}
